@@ -140,6 +140,7 @@ def run_step(prop, step, tier, seed, repo, tmp, only=None, scale=None, idx=0):
     env = dict(os.environ)
     env["VERIF_TMP"] = tmp
     env["VERIF_DIR"] = VERIF
+    env["VERIF_HARNESS_DIR"] = os.path.join(VERIF, "harness")
     env["VERIF_REPO_DIR"] = repo
     env["VERIF_GO_BIN"] = find_go()
     env["VERIF_GOLDEN"] = os.path.join(VERIF, "golden", "corpus.txt")
